@@ -257,6 +257,9 @@ func cmdCheck(o opts, prop, tier string) int {
 		all = append(all, f.obls...)
 	}
 	all = append(all, e.lemmaObligations()...)
+	if prop == "C20" {
+		all = append(all, e.typeInvObligations()...)
+	}
 	var sel []*Obligation
 	for _, ob := range all {
 		for _, p := range ob.Props {
